@@ -1029,7 +1029,7 @@ def _history_round(checker, rng, network):
 		picks = [transactions[0], transactions[1], transactions[0], transactions[-1], transactions[0], transactions[1 % len(transactions)]]
 		steps = [(kind, buffer, transaction) for kind, (buffer, transaction) in zip(order, picks)]
 		if 'nem' != network:
-			aggregates = [pair for pair, made in zip(transactions, generated) if 'Aggregate' in type(made).__name__] or transactions[:1]
+			aggregates = [pair for pair in transactions if 'Aggregate' in type(pair[1]).__name__] or transactions[:1]
 			steps[2:2] = [('cosign', *aggregates[0]), ('account_cosign', *aggregates[-1]), ('cosign_detached', *aggregates[0])]
 			steps.append(('cosign', *aggregates[0]))
 		checker.transaction_history(network, seed, secret, steps)
@@ -1042,7 +1042,13 @@ def _history_round(checker, rng, network):
 	pairs = [
 		(first, good_first), (first, flip(good_first, rng.randrange(512))), (second, good_second), (second, good_first), (first, good_first),
 		(first, good_first[:32] + bytes(32)), (b'', ref_sign(network, secret, b'')), (second, good_second)]
-	checker.verify_history(network, public_key, pairs, ['accept', 'reject', 'accept', 'reject', 'accept', 'reject', 'accept', 'accept'])
+	# (a signature made for the first message is good for the second exactly when the two messages are the same bytes)
+	# the verdict required for a pair is a function of the pair: the reference signature of the message is accepted, anything
+	# else with these R halves is refused (S_unique) - so coinciding random messages cannot make an expectation wrong
+	expected = ['accept' if signature == ref_sign(network, secret, message) else 'reject' for message, signature in pairs]
+	checker.verify_history(network, public_key, pairs, expected)
+	ctx.count(f'history:{network}:verifier-verdicts:accept', expected.count('accept'))
+	ctx.count(f'history:{network}:verifier-verdicts:reject', expected.count('reject'))
 	ctx.count(f'history:{network}:one-verifier-many-signatures')
 	checker.settle()
 
